@@ -828,7 +828,12 @@ func (f *Frugal) UnderlyingType(t *Type) *Type {
 		if !ok {
 			return t
 		}
-		typedefIndex = parsed.typedefIndex
+		if typedef, ok := parsed.typedefIndex[t.ParamName()]; ok {
+			// The typedef's target is written relative to the included
+			// file, so it has to be resolved there.
+			return parsed.UnderlyingType(typedef.Type)
+		}
+		return t
 	}
 	if typedef, ok := typedefIndex[t.ParamName()]; ok {
 		// Recursively call underlying type to handle typedef nesting.
